@@ -57,6 +57,11 @@ def subst_type(F, idx, env, memo=None):
     if new_s in by_s:
         memo[idx] = by_s[new_s]
         return memo[idx]
+    if k == "alias":
+        na = _normalize_deref_alias(F, new_s, by_s)
+        if na is not None:
+            memo[idx] = na
+            return na
     n = dict(t)
     n["s"] = new_s
     ni = len(F.types)
@@ -74,6 +79,31 @@ def subst_type(F, idx, env, memo=None):
     if "params" in t:
         n["params"] = [subst_type(F, x, env, memo) for x in t["params"]]
     return ni
+
+
+def _normalize_deref_alias(F, s, by_s):
+    """`<Handle<..> as Deref>::Target` with a local Deref impl for the handle is that impl's target type (what the compiler's
+    normalisation yields at the instantiation)."""
+    import re
+
+    from . import implsel
+
+    m = re.fullmatch(r"<(.+) as (?:std|core)::ops::Deref>::Target", s)
+    if not m or m.group(1) not in by_s:
+        return None
+    self_idx = by_s[m.group(1)]
+    st = F.types[self_idx]
+    if st["k"] != "adt" or st["path"] not in F.adts:
+        return None
+    best = implsel.find_impl(F, "core::ops::deref::Deref", (self_idx, {}))
+    if best is None:
+        return None
+    _sp, im, bind = best
+    key = next((it["key"] for it in im["items"] if it["name"] == "deref" and it["key"] in F.bodies), None)
+    if key is None or any(e for (_i, e) in bind.values()):
+        return None
+    out = F.strip_refs(F.body(key)["output"])
+    return subst_type(F, out, {n: i for n, (i, _e) in bind.items()})
 
 
 def _subst_types(x, F, env, memo):
@@ -119,6 +149,31 @@ def _identity_instantiation(F, t, cb):
     return True
 
 
+def _reresolve(F, blocks):
+    """After type substitution a trait-method call on a type parameter (`<P as Deref>::deref`) may have become a call on a local
+    type (`P = Arc<T>`): select the local impl, as the compiler does at the instantiation."""
+    from . import implsel
+
+    for bl in blocks:
+        t = bl["term"]
+        if t["k"] != "call" or t.get("resolved") != "unresolved" or not t.get("callee_trait") or not isinstance(t.get("callee_self"), int):
+            continue
+        st = F.ty(t["callee_self"])
+        if st["k"] != "adt" or st["path"] not in F.adts:
+            continue
+        best = implsel.find_impl(F, t["callee_trait"], (t["callee_self"], {}))
+        if best is None:
+            continue
+        _sp, im, bind = best
+        key = next((it["key"] for it in im["items"] if it["name"] == t.get("callee_name") and it["key"] in F.bodies), None)
+        if key is None:
+            continue
+        names = [g["name"] for g in F.body(key).get("generics", []) if g["kind"] == "type"]
+        if any(n not in bind or bind[n][1] for n in names):
+            continue  # the method has type parameters of its own: leave the call as it is
+        t["resolved"] = {"kind": "Item", "def": key, "local": True, "args": [{"t": bind[n][0]} for n in names], "impl_self": t["callee_self"], "impl_trait": t["callee_trait"], "reresolved": True}
+
+
 def _returns_typed_block(F, cb):
     """The function hands back a typed block pointer `NonNull<INNER<..>>`: an allocation helper proper - the root of an
     allocation-to-handle region, which the constructor rules want to see as a call (`allocate_for_header_and_slice(len)`)."""
@@ -145,8 +200,78 @@ def default_pred(F):
     return pred
 
 
-def inline_body(F, b, pred=None, depth=3, stack=(), max_blocks=600):
-    """Synthetic copy of body b with qualifying calls inlined (or b itself if there is nothing to inline)."""
+MAYBE_UNINIT = "core::mem::maybe_uninit::MaybeUninit"
+
+
+def ctor_pred(F):
+    """Predicate for the constructor rules: private helpers as usual, and in addition the crate's own uninitialised-handle API
+    when a constructor is built on top of it (`UniqueArc::from_header_and_uninit_slice(header, len)`, `DerefMut` of the unique
+    handle to reach the slots, `assume_init*`, `shareable`): the allocation, the header write and the re-typing are then judged in
+    the constructor that uses them, exactly as if they were written out there."""
+    p = F.__dict__.get("_ctor_pred")
+    if p is not None:
+        return p
+    dp = default_pred(F)
+
+    def pred(key):
+        if dp(key):
+            return True
+        cb = F.body(key)
+        if cb is None or cb["kind"] not in ("Fn", "AssocFn") or _returns_typed_block(F, cb):
+            return False
+        tys = [cb.get("output")] + list(cb.get("inputs", []))
+        if any(t is not None and F.tokens(F.strip_refs(t))[0] > 0 and F.mentions_adt(t, MAYBE_UNINIT) for t in tys):
+            return True
+        imp = cb.get("impl") or {}
+        if imp.get("trait") in ("core::ops::deref::DerefMut", "core::ops::deref::Deref") and F.handle_name(imp["self_ty"]) == "UniqueArc":
+            return True
+        if cb.get("name") == "shareable" and F.handle_name(imp.get("self_ty", -1)) == "UniqueArc":
+            return True
+        return False
+
+    F.__dict__["_ctor_pred"] = pred
+    return pred
+
+
+def inlined_ctor(F, key):
+    cache = F.__dict__.setdefault("_inlined_ctor_bodies", {})
+    if key not in cache:
+        b = F.body(key)
+        cache[key] = inline_body(F, b, ctor_pred(F), depth=4) if b is not None else None
+    return cache[key]
+
+
+def _guard_drop(F, t):
+    """For a `drop` terminator of a value of a private local non-handle type with a Drop impl whose fields need no drop glue of
+    their own (raw pointers, integers, Layout, references, ManuallyDrop, PhantomData): (key of the Drop body, type-parameter
+    environment); else None."""
+    ty = F.ty(t.get("ty", 0))
+    if ty["k"] != "adt" or not ty.get("local") or ty["path"] not in F.drop_impls or F.path_to_handle.get(ty["path"]) is not None:
+        return None
+    adt = F.adts.get(ty["path"])
+    if not adt or adt.get("reachable", True) or not adt.get("variants"):
+        return None
+    for f in adt["variants"][0]["fields"]:
+        ft = F.ty(f["ty"])
+        trivial = ft["k"] in ("ptr", "ref", "prim", "fnptr") or (ft["k"] == "adt" and ft["path"] in ("core::alloc::layout::Layout", "core::marker::PhantomData", "core::mem::manually_drop::ManuallyDrop", "core::ptr::non_null::NonNull"))
+        if not trivial:
+            return None
+    key = F.drop_impls[ty["path"]]
+    cb = F.body(key)
+    if cb is None or cb["arg_count"] != 1:
+        return None
+    st = F.ty(cb["impl"]["self_ty"])
+    iargs = [F.ty(a["t"]) for a in st["args"] if "t" in a]
+    targs = [a["t"] for a in ty["args"] if "t" in a]
+    if len(iargs) != len(targs) or not all(a["k"] == "param" for a in iargs):
+        return None
+    env = {a["name"]: ti for a, ti in zip(iargs, targs) if not (F.ty(ti)["k"] == "param" and F.ty(ti)["name"] == a["name"])}
+    return key, env
+
+
+def inline_body(F, b, pred=None, depth=3, stack=(), max_blocks=600, drops=False):
+    """Synthetic copy of body b with qualifying calls inlined (or b itself if there is nothing to inline).
+    drops=True: the destructor of a private guard value is inlined where the value is dropped (`let _g = FreeOnDrop::new(p); ..`)."""
     if pred is None:
         pred = default_pred(F)
     if depth <= 0:
@@ -159,25 +284,49 @@ def inline_body(F, b, pred=None, depth=3, stack=(), max_blocks=600):
     while i < len(blocks):
         bl = blocks[i]
         t = bl["term"]
+        gd = _guard_drop(F, t) if (drops and t["k"] == "drop" and i not in skip) else None
+        if gd is not None and gd[0] not in stack and gd[0] != b["key"]:
+            # rewrite `drop(place)` into `tmp = &mut place; <Drop::drop>(tmp)` and let the ordinary call inlining take over
+            key, env0 = gd
+            cb = F.body(key)
+            if nb is None:
+                nb = copy.deepcopy(b)
+                blocks = nb["blocks"]
+                bl = blocks[i]
+                t = bl["term"]
+            memo0 = {}
+            rty = subst_type(F, cb["locals"][1]["ty"], env0, memo0) if env0 else cb["locals"][1]["ty"]
+            tl = len(nb["locals"])
+            nb["locals"].append({**cb["locals"][1], "ty": rty})
+            dl = len(nb["locals"])
+            nb["locals"].append({**cb["locals"][0]})
+            bl["stmts"].append({"k": "assign", "lhs": {"l": tl, "p": [], "ty": rty}, "rv": {"k": "ref", "mut": True, "bk": "Mut", "place": copy.deepcopy(t["place"])}, "span": t["span"], "inlined_arg": key})
+            gnames = [g["name"] for g in cb.get("generics", []) if g["kind"] == "type"]
+            pidx = {F.types[x]["name"]: x for x in range(len(F.types)) if F.types[x]["k"] == "param"}
+            gargs = [{"t": env0.get(n, pidx.get(n))} for n in gnames]
+            bl["term"] = {"k": "call", "args": [{"mv": {"l": tl, "p": [], "ty": rty}}], "arg_tys": [rty], "dest": {"l": dl, "p": [], "ty": cb["locals"][0]["ty"]}, "target": t.get("target"), "unwind": t.get("unwind"), "callee": key, "callee_local": True, "callee_args": gargs, "callee_name": "drop",
+                          "resolved": {"kind": "Item", "def": key, "local": True, "args": gargs}, "span": t["span"], "guard_drop": True}
+            t = bl["term"]
         if i in skip or t["k"] != "call":
             i += 1
             continue
         r = t.get("resolved")
         key = r["def"] if isinstance(r, dict) else t.get("callee")
         cb = F.body(key) if key else None
-        if cb is None or key in stack or key == b["key"] or not pred(key) or len(blocks) + len(cb["blocks"]) > max_blocks:
+        if cb is None or key in stack or key == b["key"] or not (pred(key) or t.get("guard_drop")) or len(blocks) + len(cb["blocks"]) > max_blocks:
             i += 1
             continue
         env = _instantiation_env(F, t, cb)
         if env is None or len(t["args"]) != cb["arg_count"]:
             i += 1
             continue
-        cbi = inline_body(F, cb, pred, depth - 1, stack + (b["key"],), max_blocks)
+        cbi = inline_body(F, cb, pred, depth - 1, stack + (b["key"],), max_blocks, drops)
         if env:
             # the callee is instantiated at other types than its own parameters (`Allocation::<H, MaybeUninit<T>>::new`):
             # rewrite every type it mentions
             memo = {}
             cbi = {**cbi, "locals": _subst_types(cbi["locals"], F, env, memo), "blocks": _subst_types(cbi["blocks"], F, env, memo)}
+            _reresolve(F, cbi["blocks"])
         if nb is None:
             nb = copy.deepcopy(b)
             blocks = nb["blocks"]
@@ -226,6 +375,14 @@ def inline_body(F, b, pred=None, depth=3, stack=(), max_blocks=600):
         return b
     nb["inlined"] = inlined
     return nb
+
+
+def inlined_with_drops(F, key):
+    cache = F.__dict__.setdefault("_inlined_drop_bodies", {})
+    if key not in cache:
+        b = F.body(key)
+        cache[key] = inline_body(F, b, None, depth=4, drops=True) if b is not None else None
+    return cache[key]
 
 
 def inlined(F, key, pred=None):
